@@ -149,7 +149,7 @@ def gen_network(rng, nmin=2, nmax=6):
     if r < 0.5:
         return random_network(rng, rng.randint(nmin, nmax))
     if r < 0.58 and nmax >= 4:
-        return latch_network(rng, rng.randint(max(nmin, 4), nmax))
+        return latch_network(rng, rng.randint(min(max(nmin, 4), 6), min(nmax, 6)))    # larger ones have hundreds of nodes: too slow for per-op dumps
     return modular_network(rng, rng.randint(max(nmin, 2), nmax))
 
 # ---------------------------------------------------------------- real side helpers
